@@ -23,7 +23,7 @@ def models(tier, seed):
 
 
 def required_tags(tier):
-    return ['periodic', 'ac'] + (['dc'] if tier == 'thorough' else []) + ['coincide_exact', 'coincide_computed', 'wmax=0', 'wmax_on_harmonic', 'wmax_between', 'one_sided', 'two_sided', 'freqs>=4', 'pi1', 'pi2', 'near_harmonic']
+    return ['periodic', 'ac'] + (['dc'] if tier == 'thorough' else []) + ['coincide_exact', 'coincide_computed', 'wmax=0', 'wmax_on_harmonic', 'wmax_between', 'one_sided', 'two_sided', 'freqs>=4', 'pi1', 'pi2', 'near_harmonic', 'deferred_evaluation']
 
 
 def line_value(parts, field, key, unit):
@@ -170,10 +170,25 @@ def replay(case, ctx):
         tscale = 1.0 / wu
         ts = np.array([0.0, 0.25 * math.pi, 1.0, -2.3, rng.uniform(-10, 10), rng.uniform(0, 100)]) * tscale
         kcl = {n: np.zeros(len(ts)) for n in nodes}
-        for field, getter, keys, unit, sc in (('phi', td.get_potential, [(n, naming.node(n)) for n in nodes], vu, s_v),
-                                               ('u', td.get_voltage, [(k, ids[c['id']]) for k, c in enumerate(ng)], vu, s_v),
-                                               ('i', td.get_current, [(k, ids[c['id']]) for k, c in enumerate(ng)], vu / zu, s_i)):
+        groups = (('phi', td.get_potential, [(n, naming.node(n)) for n in nodes], vu, s_v),
+                  ('u', td.get_voltage, [(k, ids[c['id']]) for k, c in enumerate(ng)], vu, s_v),
+                  ('i', td.get_current, [(k, ids[c['id']]) for k, c in enumerate(ng)], vu / zu, s_i))
+        # every time function is asked for FIRST and evaluated afterwards (collect the signals, then plot them): a returned function must
+        # keep meaning the quantity it was asked for, whatever is asked of the solution object later
+        asked = {}
+        for field, getter, keys, unit, sc in groups:
             for key, name in keys:
+                asked[(field, key)] = call(getter, name)
+        tg.add('deferred_evaluation')
+        for field, getter0, keys, unit, sc in groups:
+            for key, name in keys:
+                fobj, ferr = asked[(field, key)]
+
+                def getter(_name, fobj=fobj, ferr=ferr):
+                    if ferr is not None:
+                        raise ferr
+                    return fobj
+                getter.__name__ = getter0.__name__
                 want = np.zeros(len(ts))
                 for ln, wf in zip(lines, want_f):
                     X = line_value(ln['parts'], field, key, unit)
